@@ -68,3 +68,15 @@ def build(run):
                           role=lambda v, o: "duplicate-author-ids" if "same id" in o else ("author-id-replaced" if "author id" in o else "node-without-id"),
                           exclusions={"duplicate-author-ids": "DUPLICATE_AUTHOR_IDS"}, covers=["no author ids reachable", "two author ids reachable"],
                           claim="every node has an id; author ids unchanged; all ids pairwise distinct")], timeout=900)
+
+    # ---- K-C09-c: the navigation position never becomes the illegal sentinel id (shared with C11: one rule application) ---------------
+    from checks import C11
+    crate_n, lemmas_n = C11.kernel(run, "c09nav")
+    ln = dict(lemmas_n["one_rule_application_keeps_invariants"], id="K-C09-c.navigation_id_is_never_the_sentinel")
+
+    def api_sentinel(vals, out):
+        res = mcprobe([("mathml", "<math><mi id='ab'>sin</mi><mo>+</mo><mi>y</mi></math>"), ("setnav", "ab 1"), ("nav", "MoveTo7"), "navid"])
+        bad = res[-1][0] != "OK" or res[-1][1].startswith("!not set")
+        return bad, {"script": "set_navigation_node(id, offset 1); MoveTo7 (marker never set); get_navigation_mathml_id", "results": res[1:]}
+    ln["api"] = api_sentinel
+    run.kani(crate_n, [ln], timeout=900)
